@@ -125,8 +125,9 @@ def check_balance(src, name, parts, subs, res, tag=""):
                     src.check(ok, tag + f"sticky: {m1} ({len(res[m1])} partitions) could take {movable[:1]} from {m2} ({len(res[m2])} partitions)", **info)
 
 
-def second_round(src, subs, max_new=2, tag=""):
-    """(a) identical, (b) minus a non-empty proper subset of members, (c) plus 1..max_new new members"""
+def second_round(src, subs, max_new=2, tag="", vary_order=False):
+    """(a) identical, (b) minus a non-empty proper subset of members, (c) plus 1..max_new new members
+    (vary_order: a new member may list the same topics in reverse order)"""
     kind = ["same", "minus", "plus"][src.choice(f"{tag}round2", 3)]
     ms = sorted(subs)
     if kind == "minus":
@@ -141,8 +142,10 @@ def second_round(src, subs, max_new=2, tag=""):
         new = set(base[:k])
         s2 = dict(subs)
         anysub = list(subs.values())[0]
-        for n in new:
+        for n in sorted(new):
             s2[n] = list(anysub)
+            if vary_order and len(anysub) > 1 and src.flag(f"{tag}reversed_topic_list_{n}"):
+                s2[n].reverse()
         return kind, s2, set(), new
     return kind, dict(subs), set(), set()
 
